@@ -176,6 +176,19 @@ def harness_build(release=False, quiet=True):
     return os.path.join(HARNESS, "target", "release" if release else "debug", "zvth")
 
 
+class CrashError(Exception):
+    """The harness process died of a signal / abort while running code under test (stack overflow, abort, runaway allocation)."""
+
+    def __init__(self, what, status, tail):
+        Exception.__init__(self, "%s died with status %s" % (what, status))
+        self.what, self.status, self.tail = what, status, tail
+
+
+def _limit_memory():
+    import resource
+    resource.setrlimit(resource.RLIMIT_AS, (24 << 30, 24 << 30))     # a runaway allocation ends the harness, not the machine
+
+
 def harness_run(binary, args, stdin_path=None, stdout_path=None, timeout=3600, env=None):
     e = dict(os.environ)
     e.setdefault("RUST_BACKTRACE", "0")
@@ -185,7 +198,7 @@ def harness_run(binary, args, stdin_path=None, stdout_path=None, timeout=3600, e
     fout = open(stdout_path, "wb") if stdout_path else subprocess.PIPE
     try:
         p = subprocess.run([binary] + [str(a) for a in args], stdin=fin, stdout=fout, stderr=subprocess.PIPE,
-                           timeout=timeout, env=e)
+                           timeout=timeout, env=e, preexec_fn=_limit_memory)
     except subprocess.TimeoutExpired:
         raise ToolError("harness timeout: %s" % " ".join(map(str, args)))
     finally:
@@ -193,6 +206,10 @@ def harness_run(binary, args, stdin_path=None, stdout_path=None, timeout=3600, e
             fin.close()
         if stdout_path:
             fout.close()
+    if p.returncode < 0 or p.returncode in (134, 139):
+        # killed by a signal or aborted: not an error the harness reports about itself (those exit 2) - the code under test took
+        # the process down
+        raise CrashError(str(args[0]), p.returncode, p.stderr.decode(errors="replace")[-600:])
     if p.returncode != 0:
         raise ToolError("harness %s exited %d:\n%s" % (" ".join(map(str, args)), p.returncode,
                                                       p.stderr.decode(errors="replace")[-4000:]))
